@@ -421,7 +421,7 @@ impl InterpDriver {
 }
 
 const SYS_OPERANDS: [&str; 18] = [
-    "", "80", "00", "01", "81", "7f", "ff", "02", "0080", "ff7f", "ffffff7f", "ffffffff", "0000008080", "0000008000", "0102030405", "5a5a5a5a5a5a5a5a5a5a5a5a5a5a5a5a5a5a5a5a",
+    "", "80", "00", "01", "81", "05", "ff", "02", "0080", "ff7f", "ffffff7f", "ffffffff", "0000008080", "0000008000", "0102030405", "5a5a5a5a5a5a5a5a5a5a5a5a5a5a5a5a5a5a5a5a",
     "025a5a5a5a5a5a5a5a5a5a5a5a5a5a5a5a5a5a5a5a5a5a5a5a5a5a5a5a5a5a5a5a5a", "00000000",
 ];
 const SYS_OPERANDS_SMALL: [&str; 6] = ["", "01", "81", "02", "ffffff7f", "0000008080"];
